@@ -528,6 +528,9 @@ func (pe *PolicyEngine) deletePod(p *corev1.Pod) error {
 		podToDelete = podObj
 	}
 
+	if podToDelete == nil { // the pod is not in the policy-engine, nothing to delete
+		return nil
+	}
 	delete(pe.podsMap, podName)
 	pe.updatePodOwnersToRepresentativePodMapIfRequired(podToDelete)
 	return nil
